@@ -187,6 +187,14 @@ fn check_text(sub: &str, text: &str, model: &J, st: &mut Stats) -> CaseResult {
     if back_value != value || !J::from_value(&back_value).exact_eq(&J::from_value(&value)) {
         return Err(Failure::new(sub, "variable-to-value-lossy", format!("{}", back_value), case));
     }
+    // and through the library's own Deserializer (what `T::deserialize(variable)` sees)
+    {
+        use serde::Deserialize;
+        let seen = serde_json::Value::deserialize(var.clone()).map_err(|e| Failure::new(sub, "value-conversion-failed", e.to_string(), case.clone()))?;
+        if seen != value || !J::from_value(&seen).exact_eq(&J::from_value(&value)) {
+            return Err(Failure::new(sub, "variable-deserializer-lossy", format!("Value::deserialize(variable) gave {}", clip(&seen.to_string(), 300)), case));
+        }
+    }
     // through the generic search entry (Value as input) as well
     let via = jmespath::compile("@").unwrap().search(&value).map_err(|e| Failure::new(sub, "identity-search-failed", e.to_string(), case.clone()))?;
     if !var_to_j(&via).exact_eq(&got) {
